@@ -185,3 +185,14 @@ def optimize_histories(prop, tier, seed):
     cases = [dict(hseed=rng.randint(0, 999), soft_first=sf) for sf in (True, False, True) for _ in range(_n(tier, 1, 3))]
     return dict(bounded=run_cases(sc.check_optimize_history, cases, 'MIP storage portfolio optimised twice on the same problem object (first run relaxed or not): frame, second run = fresh run, flagged variables integral',
                                   '6 steps', 40 if tier == 'quick' else 120))
+
+
+@provider('C08', 'C02')
+def take_periods(prop, tier, seed):
+    rng = random.Random(seed)
+    cases = [dict(T=rng.randint(3, 7), nonuniform=rng.random() < 0.7, asset_start=rng.choice([0, 1, 2]), n_periods=rng.randint(1, 3), kind=rng.choice(['min', 'max']),
+                  ec=rng.choice([0., 0.5]), seed=rng.randint(0, 9999)) for _ in range(_n(tier, 40, 400))]
+    b = run_cases(sc.check_take, cases, 'Contract with 1-3 min/max take periods placed before / inside / straddling / after the horizon, asset window starting at step 0-2, uniform and non-uniform step lengths, one and two variables per step: rows and prorated right-hand sides vs the statement',
+                  'grids of 3-7 steps', 40 if tier == 'quick' else 200)
+    b['failures'] = [f for f in b['failures'] if f['name'].startswith(prop) or f.get('error')]
+    return dict(bounded=b)
